@@ -1,5 +1,6 @@
 import TCV.Lemmas.StoreFrame
 import TCV.Lemmas.StoreForce
+import TCV.Lemmas.StoreWrote
 /-!
 # C07 — forcing recomputes exactly what was asked (machine level)
 -/
@@ -168,5 +169,32 @@ theorem recompute_all_once (U : Universe) (f : Nat → List V → V) (htopo : To
     · rw [hm1] at h; cases h
     · exact h
   exact ⟨(by rw [List.Nodup.count a.nodup]; simp [hin]), hsome, a.stored x hin⟩
+
+/-- **a recomputation with `delete_data` that is cut short by a failing run leaves no stale result**: whatever is stored
+afterwards at the location of a forced persisting task was written by a run of this very operation (for ANY set of failing
+bodies, any requested order); and nothing outside the locations of tasks run in this operation or deleted by it changes -/
+theorem failed_recompute_leaves_no_stale (U : Universe) (f : Nat → List V → V) (fuel : Nat) (s : St V)
+    (nodes S order failing : List Nat) :
+    let s' := (step U f fuel s (.chainForceF nodes S true order failing)).1
+    ∃ new, s'.runs = s.runs ++ new ∧
+      ∀ j, j ∈ descendants U S nodes [] → (obj U j).persist = true → (s'.store (obj U j).loc).isSome = true →
+        ∃ k ∈ new, (obj U k).persist = true ∧ (obj U k).loc = (obj U j).loc := by
+  simp only [step]
+  cases hva : valueAllStop U f (fun j => failing.contains j) fuel (forceAll U true s (descendants U S nodes [])) order with
+  | mk s2 rs =>
+    obtain ⟨new, hr, hw⟩ := wrote_valueAllStop U f _ fuel order _ _ _ hva
+    refine ⟨new, by rw [hr, forceAll_runs], ?_⟩
+    intro j hj hp hsome
+    have hnone : (forceAll U true s (descendants U S nodes [])).store (obj U j).loc = none := by
+      rw [forceAll_store_delete]
+      have : (descendants U S nodes []).any (fun t => (obj U t).persist && (obj U t).loc == (obj U j).loc) = true := by
+        rw [List.any_eq_true]
+        exact ⟨j, hj, by simp [hp]⟩
+      simp [this]
+    apply hw
+    intro heq
+    simp only at hsome
+    rw [heq, hnone] at hsome
+    simp at hsome
 
 end TCV.C07
